@@ -9,12 +9,14 @@
 package main
 
 import (
+	"bytes"
 	"context"
 	"encoding/json"
 	"errors"
 	"flag"
 	"fmt"
 	"os"
+	"runtime"
 	"strings"
 	"sync"
 	"sync/atomic"
@@ -36,6 +38,7 @@ type aplan struct {
 	Dups  int  `json:"dups"`  // duplicates of the normal reply (same ID), sent DupGap ms after the normal one each
 	DupMs int  `json:"dupms"` // gap before each duplicate
 	Wrong bool `json:"wrong"` // crafted reply with a wrong request ID sent immediately
+	Pad   int  `json:"pad"`   // bytes of padding appended to every reply payload of this attempt (large responses)
 }
 
 type callPlan struct {
@@ -43,6 +46,7 @@ type callPlan struct {
 	Attempts []aplan `json:"attempts"` // exactly retries+1 entries
 	CancelMs int     `json:"cancel"`   // cancel the context after this many ms (0 = never)
 	StartMs  int     `json:"start"`    // delay before the call is issued (follow-up calls of a racing batch)
+	ReqPad   int     `json:"reqpad"`   // bytes of padding appended to the request payload (large requests)
 	Strict   bool    `json:"strict"`   // latencies have wide margins: the outcome is determined by the plan
 }
 
@@ -57,6 +61,7 @@ type callRec struct {
 	PayAtt    int      `json:"pay_att"`  // attempt number in the delivered payload (0 if none)
 	PayKind   string   `json:"pay_kind"` // N normal, E early, D duplicate, W wrong-id, ? unparsable
 	PayCall   int      `json:"pay_call"` // call number in the delivered payload
+	PayLen    int      `json:"pay_len"`  // length of the delivered payload
 	Attempts  int      `json:"attempts"` // requests of this call seen by the responder
 	Accepted  []int    `json:"accepted"` // per attempt: responses accepted into the attempt's channel by the requester's onResponse
 	Seen      []int    `json:"seen"`     // per attempt: responses carrying the attempt's ID decoded by the requester's onResponse
@@ -100,7 +105,14 @@ func (r *responder) handler(w p2p.ResponseWriter, req *p2p.Request) {
 		idx = len(cp.Attempts) - 1
 	}
 	pl := cp.Attempts[idx]
-	pay := func(kind string) []byte { return []byte(fmt.Sprintf("c%d:a%d:%s", cp.Call, att, kind)) }
+	pay := func(kind string) []byte {
+		b := []byte(fmt.Sprintf("c%d:a%d:%s", cp.Call, att, kind))
+		if pl.Pad > 0 {
+			b = append(b, ':')
+			b = append(b, bytes.Repeat([]byte{'x'}, pl.Pad)...)
+		}
+		return b
+	}
 	ctx := context.Background()
 	to := r.reqer()
 	if pl.Wrong {
@@ -137,7 +149,11 @@ func classify(data []byte, err error) (class, etxt string, pc, pa int, pk string
 		return "other", err.Error(), 0, 0, ""
 	}
 	var k string
-	if n, _ := fmt.Sscanf(strings.ReplaceAll(string(data), ":", " "), "c%d a%d %s", &pc, &pa, &k); n != 3 {
+	head := data
+	if len(head) > 64 {
+		head = head[:64]
+	}
+	if n, _ := fmt.Sscanf(strings.ReplaceAll(string(head), ":", " "), "c%d a%d %s", &pc, &pa, &k); n != 3 {
 		return "ok", "", 0, 0, "?"
 	}
 	return "ok", "", pc, pa, k
@@ -212,6 +228,9 @@ func runBatch(e *env, batch int, kind string, timeoutMs int, plans []callPlan, s
 				atomic.AddInt64(&done, 1)
 			}()
 			data, _ := json.Marshal(cp)
+			if cp.ReqPad > 0 {
+				data = append(data, bytes.Repeat([]byte{' '}, cp.ReqPad)...)
+			}
 			if cp.StartMs > 0 {
 				time.Sleep(time.Duration(cp.StartMs) * time.Millisecond)
 			}
@@ -234,6 +253,7 @@ func runBatch(e *env, batch int, kind string, timeoutMs int, plans []callPlan, s
 			select {
 			case r := <-ch:
 				rec.Class, rec.Err, rec.PayCall, rec.PayAtt, rec.PayKind = classify(r.d, r.err)
+				rec.PayLen = len(r.d)
 			case <-time.After(budget):
 				rec.Class = "hang"
 			}
@@ -407,6 +427,28 @@ func cancelRacePlans(r *hx.Rng, n int, cancelMs int, centerUs, widthUs int, base
 	return out
 }
 
+// largePlans: on-time replies and requests whose encoded size crosses 64 KiB, 1 MiB and 4 MiB (sync responses of 103 blocks are
+// legitimately large). Generous timeout (the default 3 s), strict oracle: answered at the first attempt, full payload.
+func largePlans(base int) []callPlan {
+	nAtt := p2p.VerifC17MaxRetries + 1
+	var out []callPlan
+	mk := func(pad, reqpad int) {
+		cp := callPlan{Call: base + len(out) + 1, Strict: true, ReqPad: reqpad}
+		for k := 0; k < nAtt; k++ {
+			cp.Attempts = append(cp.Attempts, aplan{Pad: pad})
+		}
+		out = append(out, cp)
+	}
+	for _, pad := range []int{64 << 10, 1<<20 - 200, 1<<20 + 1, 4 << 20} {
+		mk(pad, 0)
+	}
+	for _, rp := range []int{64 << 10, 1<<20 + 1, 4 << 20} {
+		mk(0, rp)
+	}
+	mk(1<<20+1, 1<<20+1)
+	return out
+}
+
 // heldTimeoutPlans: the reply arrives early (5 ms) but resMu is held (by the harness, standing for a response handler descheduled
 // inside its critical section) from 2 ms until after the requester's deadline: the reply's handler queues on resMu, then the
 // requester (timer fired) queues behind it. A reply accepted before the requester deregisters must be returned.
@@ -489,6 +531,8 @@ func main() {
 	dlRounds := flag.Int("deadline", 10, "rounds of the deadline batch (replies within microseconds of the timer, all calls at once)")
 	dlCalls := flag.Int("dlcalls", 48, "concurrent calls per deadline round")
 	crRounds := flag.Int("cancelrace", 10, "rounds of the cancel-race batch (replies within microseconds of the cancellation + follow-up calls)")
+	doLarge := flag.Bool("large", true, "run the large-payload batch")
+	doShutdown := flag.Bool("shutdown", true, "run the shutdown scenarios (Connection.Stop with requests in flight)")
 	heldRounds := flag.Int("held", 3, "rounds of the held-lock batches (resMu held across the deadline / the cancellation)")
 	nflood := flag.Int("flood", 0, "goroutines flooding the requester with unknown-ID responses during the deadline / cancel-race rounds")
 	crCalls := flag.Int("crcalls", 32, "racing calls per cancel-race round (plus as many follow-up calls)")
@@ -574,6 +618,25 @@ func main() {
 			e.close()
 		}
 	}
+	if *doLarge {
+		batch++
+		e := newEnv(time.Duration(p2p.VerifC17DefaultTimeout))
+		tmo := int(time.Duration(p2p.VerifC17DefaultTimeout) / time.Millisecond)
+		recs, br := runBatch(e, batch, "large", tmo, largePlans(batch*1000), 200, nil)
+		for _, rec := range recs {
+			o.Put(rec)
+		}
+		o.Put(br)
+		if br.Hang {
+			return
+		}
+		e.close()
+	}
+	if *doShutdown {
+		for _, sc := range []string{"plain", "race-timeout", "plain", "race-timeout"} {
+			o.Put(runShutdown(sc))
+		}
+	}
 	if *heldRounds > 0 {
 		// (a) resMu held across the deadline
 		const hTimeout = 60
@@ -599,7 +662,11 @@ func main() {
 		e = newEnv(300 * time.Millisecond)
 		for i := 0; i < *heldRounds; i++ {
 			batch++
-			plans := heldCancelPlans(16, 32, 30, 60, batch*1000)
+			// Whatever object pools the code under test may keep are emptied first (sync.Pool contents do not survive two
+			// collections), so that objects released by the cancelled calls are the ones the follow-up calls pick up.
+			runtime.GC()
+			runtime.GC()
+			plans := heldCancelPlans(16, 48, 30, 60, batch*1000)
 			go func() {
 				time.Sleep(2 * time.Millisecond)
 				e.req.HoldResMu(48 * time.Millisecond)
